@@ -402,6 +402,17 @@ class Evaluator(PE):
             return [(d2.entries[k][1], p)]
         if attr == "copy":
             return [(Dct(recv.kind, recv.entries, recv.open, recv.name), p)]
+        if attr in ("pop", "discard", "remove") and args:
+            k = show(args[0])
+            if k in recv.entries:
+                d2 = Dct(recv.kind, {kk: vv for kk, vv in recv.entries.items() if kk != k}, recv.open, recv.name, opens=recv.opens)
+                store(d2)
+                return [(recv.entries[k][1] if attr == "pop" else Const(None), p)]
+            if not recv.open:
+                if attr == "pop" and len(args) > 1:
+                    return [(args[1], p)]
+                if attr == "discard":
+                    return [(Const(None), p)]
         if attr == "update":
             els, open_ = self.iter_elems(args[0], p, e) if args and isinstance(args[0], (Dct, Lst, Tup)) else ([], True)
             src = self.last_opens if (args and isinstance(args[0], (Dct, Lst, Tup))) else ((show(args[0]),) if args else ())
